@@ -15,9 +15,6 @@ def parse(stdout):
     return recs
 
 
-RAW_ID_FIELDS = {"mir", "bcx", "diag"}   # raw listings: differ by F17 / F20 / F19 classes (see C15); their normalised forms are compared
-
-
 def fields_of(digests):
     return dict(x.split("=", 1) for x in digests if "=" in x)
 
@@ -236,7 +233,7 @@ def main(ctx, args):
         "threads obtain ids only as results of their own earlier calls (handles)",
         "real schedules are SAMPLED (OS scheduler, K in {2,4,8,16}, barrier start + seeded jitter), not enumerated; the theorems quantify over all schedules of the model only",
         "type-variable cells (Arc<RwLock<TypeVar>>) are per compilation and not modelled; Symbol::as_str lifetime extension: modelled as slices into the interner's buckets (C19_as_str_slices_stay_valid), the backend pinned by the translator and probed on the real interner (`c19 asstr`)",
-        "each thread's result is compared with the result of the same source compiled alone in a fresh process (all artefacts of C15: diagnostics, bytecode, WASM, MIR, skeleton, 32 VM samples, Rust), raw-id listings (F17) and type-scheme numbering (F20) normalised as in C15",
+        "each thread's result is compared with the result of the same source compiled alone in a fresh process (all artefacts of C15: diagnostics, bytecode, WASM, MIR, skeleton, 32 VM samples, Rust) as they come: raw MIR / ext-table listings and the order of diagnostics included (C15's F17 / F19 / F20 are repaired)",
     ]
     known = load_known("C19")
     if not extract(ctx):
@@ -298,10 +295,9 @@ def main(ctx, args):
     # ---- decide
     inter = [p for p in problems if p["kind"] == "interference"]
     other = [p for p in problems if p["kind"] != "interference"]
-    f17_like = [p for p in inter if set(p["differs_in"]) <= RAW_ID_FIELDS]
     f8 = next((k for k in known if k.get("class") == "garbled-symbol-text"), None)
-    f8_hits = [p for p in inter if p not in f17_like and f8 and garbled_symbol_text(p)]
-    real = [p for p in inter if p not in f17_like and p not in f8_hits]
+    f8_hits = [p for p in inter if f8 and garbled_symbol_text(p)]
+    real = [p for p in inter if p not in f8_hits]
     probe = asstr_probe()
     ctx.coverage["as_str_slice_probe(F8)"] = probe
     if f8:
@@ -368,11 +364,11 @@ def main(ctx, args):
         "rule": "a case = one compile+run job executed by one of K concurrent threads (K in {2,4,8,16}; rounds of identical / distinct / mixed sources; barrier start + seeded jitter) "
                 "plus rounds of CROSSED jobs: pairs of generated programs that share identifiers never seen by the process and mention them in opposite orders (record literals holding closures, "
                 "record types in diagnostics, annotated records + destructuring, stateful field initialisers, constructors, type parameters, module members), started together at the barrier; "
-                "every job is compared, artefact by artefact (raw-id listings normalised as in C15), with the result of the same source compiled ALONE IN A FRESH PROCESS; watchdog timeout = deadlock, thread death = panic outside catch_unwind; "
+                "every job is compared, artefact by artefact (raw listings and diagnostics order included), with the result of the same source compiled ALONE IN A FRESH PROCESS; watchdog timeout = deadlock, thread death = panic outside catch_unwind; "
                 "distinct = distinct source path, non-trivial = the source compiles to bytecode with at least one function. Plus real-thread schedules over the raw interner API vs the model's solo runs (up to renaming + one-string-one-id across threads)",
         "samples": [{"round": x["name"], "threads": x["k"], "jobs": x["jobs"], "wall_s": round(x["wall"], 1)} for x in rounds[:3]] + icorr["samples"],
         "rounds": len(rounds), "jobs_by_threads": dict(byk), "crossed_identifier_jobs": sum(x["crossed"] for x in rounds),
-        "interference_cases": len(real), "garbled_symbol_text_cases(F8)": len(f8_hits), "id_listing_only_differences(F17/F19/F20 classes)": len(f17_like),
+        "interference_cases": len(real), "garbled_symbol_text_cases(F8)": len(f8_hits),
         "deadlocks_or_crashes": len(other),
         "traces_validated_against_impl": icorr["schedules"],
         "interner_threaded_schedules": icorr["schedules"], "interner_up_to_renaming_checked": icorr["renaming_checked"],
